@@ -89,6 +89,35 @@ def _mask(sym, universe: list[str]) -> set[str]:
     return out
 
 
+def graph_after_twin(m1: int, m2: int, dupk: int) -> bool:
+    """
+    post: _
+    """
+    # Validation must not depend on what was validated before in the same process: a valid graph is
+    # created first, then the same graph with one stage duplicated (same ref_id, same requisites).
+    with hx.Path("graph_after_twin") as P:
+        refs = ["a", "b", "c"]
+        reqs = [set(), _mask(m1, ["a"]), _mask(m2, ["a", "b"])]
+        k = hx.pick(dupk, 3)
+        with hx.native():
+            first = [StageExecution(ref_id=r, name="s%d" % i, requisite_stage_ref_ids=set(q)) for i, (r, q) in enumerate(zip(refs, reqs))]
+        try:
+            Workflow.create(application="a", name="w", stages=first)
+        except Exception as e:
+            return P.fail("C20/graph/rejected_valid_graph", {"refs": refs, "exception": type(e).__name__})
+        with hx.native():
+            second = [StageExecution(ref_id=r, name="t%d" % i, requisite_stage_ref_ids=set(q)) for i, (r, q) in enumerate(zip(refs, reqs))]
+            second.append(StageExecution(ref_id=refs[k], name="dup", requisite_stage_ref_ids=set(reqs[k])))
+            P.reached((tuple(sorted(reqs[1])), tuple(sorted(reqs[2])), k))
+        try:
+            Workflow.create(application="a", name="w", stages=second)
+        except (InvalidStageGraphError, CircularDependencyError):
+            return True
+        except Exception as e:
+            return P.fail("C20/graph/raises_%s" % type(e).__name__, {"duplicated": refs[k]})
+        return P.fail("C20/graph/accepted_invalid_graph/duplicate_after_its_valid_twin", {"refs": refs + [refs[k]], "requisites": [sorted(q) for q in reqs] + [sorted(reqs[k])]})
+
+
 def graph3_unique(m0: int, m1: int, m2: int, z: int) -> bool:
     """
     post: _
@@ -521,6 +550,7 @@ def callers_catch(k: int) -> bool:
 PLAN = [
     ("graph3_unique", "quick", 280),
     ("graph3_dups", "quick", 280),
+    ("graph_after_twin", "quick", 120),
     ("graph4_p0", "thorough", 1500),
     ("graph4_p2", "thorough", 1500),
     ("graph4_p6", "thorough", 1500),
